@@ -14,13 +14,16 @@ import (
 
 	cmtabci "github.com/cometbft/cometbft/abci/types"
 
+	"github.com/oasisprotocol/oasis-core/go/common/cbor"
 	"github.com/oasisprotocol/oasis-core/go/common/crypto/hash"
 	beaconState "github.com/oasisprotocol/oasis-core/go/consensus/cometbft/apps/beacon/state"
 	roothashState "github.com/oasisprotocol/oasis-core/go/consensus/cometbft/apps/roothash/state"
 	roothash "github.com/oasisprotocol/oasis-core/go/roothash/api"
 	"github.com/oasisprotocol/oasis-core/go/roothash/api/block"
 	"github.com/oasisprotocol/oasis-core/go/roothash/api/commitment"
+	"github.com/oasisprotocol/oasis-core/go/roothash/api/message"
 	scheduler "github.com/oasisprotocol/oasis-core/go/scheduler/api"
+	staking "github.com/oasisprotocol/oasis-core/go/staking/api"
 	"github.com/oasisprotocol/oasis-core/go/storage/mkvs"
 )
 
@@ -107,6 +110,40 @@ func rhVoteRoot(rt string, round int64, vote string) hash.Hash {
 	return hash.NewFromBytes([]byte(fmt.Sprintf("state|%s|%d|%s", rt, round, vote)))
 }
 
+// rhMessages: the messages a runtime emits with the result `vote` of a round - a function of (runtime, round, result) so that all
+// commitments for one result agree.  Every third result emits one or two messages that act on the runtime's own staking account
+// (funded by the tokens of incoming messages): transfers and escrows within and above its balance, reclaims of what it never
+// delegated, withdrawals it has no allowance for.  A message that fails leaves the round alone.
+func (n *cnNet) rhMessages(rt string, round int64, vote string) []message.Message {
+	if n.noRtMsgs {
+		return nil
+	}
+	h := hash.NewFromBytes([]byte(fmt.Sprintf("msgs|%d|%s|%d|%s", n.cfg.Seed, rt, round, vote)))
+	if h[0]%3 != 0 {
+		return nil
+	}
+	accts := n.accounts()
+	pick := func(b byte) staking.Address { return accts[int(b)%len(accts)].addr }
+	one := func(k, a, amt byte) message.Message {
+		v := cbor.NewVersioned(0)
+		switch k % 5 {
+		case 0, 1:
+			return message.Message{Staking: &message.StakingMessage{Versioned: v, Transfer: &staking.Transfer{To: pick(a), Amount: qq(int64(amt % 9))}}}
+		case 2:
+			return message.Message{Staking: &message.StakingMessage{Versioned: v, AddEscrow: &staking.Escrow{Account: pick(a), Amount: qq(int64(5 + amt%4))}}}
+		case 3:
+			return message.Message{Staking: &message.StakingMessage{Versioned: v, ReclaimEscrow: &staking.ReclaimEscrow{Account: pick(a), Shares: qq(int64(1 + amt%3))}}}
+		default:
+			return message.Message{Staking: &message.StakingMessage{Versioned: v, Withdraw: &staking.Withdraw{From: pick(a), Amount: qq(int64(1 + amt%3))}}}
+		}
+	}
+	msgs := []message.Message{one(h[1], h[2], h[3])}
+	if h[4]%2 == 0 {
+		msgs = append(msgs, one(h[5], h[6], h[7]))
+	}
+	return msgs
+}
+
 // rhCommitment builds and signs one executor commitment.
 func (n *cnNet) rhCommitment(rt string, round int64, prev hash.Hash, node, sched, vote string) (*commitment.ExecutorCommitment, error) {
 	var ni, si int
@@ -133,6 +170,15 @@ func (n *cnNet) rhCommitment(rt string, round int64, prev hash.Hash, node, sched
 		ec.Header.Header.StateRoot = &st
 		ec.Header.Header.MessagesHash = &mh
 		ec.Header.Header.InMessagesHash = &imh
+		if msgs := n.rhMessages(rt, round, vote); len(msgs) > 0 {
+			// messages emitted by the runtime in this round: every commitment for this result carries their hash, the scheduler's
+			// own commitment carries the messages
+			mh = message.MessagesHash(msgs)
+			if ni == si {
+				ec.Messages = msgs
+				n.statRtMsgs += len(msgs)
+			}
+		}
 	}
 	if err := ec.Sign(signer, runtimeID(rt)); err != nil {
 		return nil, err
